@@ -123,6 +123,50 @@ def gen_cases(ctx):
         b = dict(a, linear=True)
         cases.append({"kind": "topology-twin", "history": [a, b]})
         cases.append({"kind": "topology-twin", "history": [b, a]})
+    # (f) namesakes: two distinct run-time part classes carrying the same __name__ (the same class statement
+    #     executed twice by a factory with another signature), asked one after the other on an instance of each;
+    #     a class is identified by the class object, never by its name (the model gives them distinct names)
+    nsk = 0
+    for p in classes:
+        if p["signature"] is None or p["structure_owner"] != "AbstractPart" or p["cutter"] is None:
+            continue
+        if rng.random() > (0.5 if ctx.quick else 1.0):
+            continue
+        k1, k2 = len(p["signature"][0]), len(p["signature"][1])
+        steps = []
+        for j in range(2):
+            sig = [gens.rand_dna(rng, k1), gens.rand_dna(rng, k2)]
+            items = pattern.tokenize(p["structure"], ctx.lettermap)
+            sp = {"kind": "sub", "name": "CustomPart", "parent": spec[p["name"]], "sig": sig}
+            cl = "(part_cls %s %s %s %s)" % (gens.c_role(p["role"]), pattern.c_enzyme(p["cutter"]),
+                                            pattern.c_pattern(pattern.tokenize(sig[0], ctx.lettermap)),
+                                            pattern.c_pattern(pattern.tokenize(sig[1], ctx.lettermap)))
+            rname = "namesake_%d_%d" % (nsk, j)
+            if p["role"] == "module":
+                m = gens.gen_module(rng, p["cutter"], sig[0], sig[1], 4, 3)
+            else:
+                m = gens.gen_vector(rng, p["cutter"], sig[0], sig[1], 4, 3)
+            if m is None:
+                break
+            inst[rname] = m["seq"]
+            mname = "CustomPart#%d#%d" % (nsk, j)
+            steps.append({"cls": sp, "rec": rname,
+                          "ce": '(CE "%s" ("%s" :: cmro (kit_ce "%s")) %s)' % (mname, mname, p["name"], cl)})
+        if len(steps) == 2:
+            a, b = steps
+            cases.append({"kind": "namesakes", "history": [a, dict(b, rec=a["rec"]), b, dict(a, rec=b["rec"])]})
+            cases.append({"kind": "namesakes", "history": [b, dict(a, rec=b["rec"]), a]})
+            nsk += 1
+    # (g) the same histories of related classes with every wrapper kept alive and one record OBJECT per probe shared
+    #     by all the wrappers typed on it (a parent class first, then its subclasses on the very same object)
+    for a in names:
+        rel = [n for n in names if n != a and a in byname[n]["mro"]]
+        for b in rel:
+            cases.append({"kind": "alive-shared-record", "alive": True, "history": [
+                {"cls": spec[a], "rec": a, "ce": 'kit_ce "%s"' % a, "alive": True},
+                {"cls": spec[b], "rec": a, "ce": 'kit_ce "%s"' % b},
+                {"cls": spec[b], "rec": b, "ce": 'kit_ce "%s"' % b},
+                {"cls": spec[a], "rec": b, "ce": 'kit_ce "%s"' % a}]})
     # (b) random longer histories, with subclasses created at run time
     nh = 60 if ctx.quick else 600
     for hno in range(nh):
@@ -178,7 +222,18 @@ _INST = {}
 def _answers(history):
     from harness import implutil
     out = []
+    alive = bool(history and history[0].get("alive"))
+    keep, records = [], {}
     for st in history:
+        if alive and not st.get("linear"):
+            if st["rec"] not in records:
+                records[st["rec"]] = implutil.mk_circular(_INST[st["rec"]], st["rec"])
+            ent = implutil.get_class(st["cls"])(records[st["rec"]])
+            keep.append(ent)
+            t = implutil.typed_info(ent)
+            out.append({"valid": t["valid"], "up": t["up"], "down": t["down"], "target": t["target"],
+                        "exc": [t.get(k) for k in ("valid_exc", "up_exc", "down_exc", "target_exc")]})
+            continue
         if st.get("linear"):
             from Bio.Seq import Seq
             from Bio.SeqRecord import SeqRecord
